@@ -292,8 +292,9 @@ class _NextFound(Exception):
 class _GenEscape(Exception):
     """An exception / return / break raised by the BODY of a for loop while the generator it iterates is being run
     with the body as a callback: it must pass through the generator's frames untouched."""
-    def __init__(self, inner):
+    def __init__(self, inner, owner=None):
         self.inner = inner
+        self.owner = owner              # the loop whose body raised it: only that loop takes it apart
 
 
 class AExcValue:
@@ -751,6 +752,49 @@ class AExitStack:
         return swallowed
 
 
+class ADispatch:
+    """functools.singledispatch(f): calls go to the implementation registered for the class of the first argument (the most
+    specific registered class it is an instance of), else to f."""
+    def __init__(self, default):
+        self.default = default
+        self.registry = []          # (class value, implementation), in registration order
+
+    def __repr__(self):
+        return f'<singledispatch {self.default!r} +{len(self.registry)}>'
+
+    def absint_hasattr(self, name):
+        return name in ('register', 'dispatch', 'registry')
+
+    def absint_getattr(self, interp, name, node):
+        if name == 'register':
+            return ('dispatch-register', self)
+        raise Unsupported(f'singledispatch attribute {name} at line {getattr(node, "lineno", "?")}')
+
+    def choose(self, interp, arg, node):
+        hits = []
+        for cls_v, impl in self.registry:
+            tn = interp._type_names(cls_v)
+            r = interp._isinstance(arg, cls_v, ' '.join(tn) if tn is not None else '?', node) if tn is not None else None
+            if r is True:
+                hits.append((cls_v, impl))
+            elif r is not False:
+                raise Unsupported(f'singledispatch on a value whose class is not known at line {getattr(node, "lineno", "?")}')
+        if not hits:
+            return self.default
+        # the most specific class wins: a registered class that is a subclass of another registered hit
+        best = hits[-1]
+        for cv, impl in hits:
+            if all(cv is ov or _py_subclass(cv, ov) for ov, _ in hits):
+                best = (cv, impl)
+        return best[1]
+
+
+def _py_subclass(a, b):
+    if isinstance(a, type) and isinstance(b, type):
+        return issubclass(a, b)
+    return a is b
+
+
 class ALogger:
     """logging.getLogger(...): a logger nobody listens to - its methods do nothing, nothing is enabled."""
     def __repr__(self):
@@ -907,10 +951,10 @@ class AbsInt:
         return choice
 
     # ------------------------------------------------------------------ calls
-    def call_function(self, info, args, kwargs, node=None, closure=None):
+    def call_function(self, info, args, kwargs, node=None, closure=None, trusted=False):
         if closure is None and info.qname in self.summaries:
             return self.summaries[info.qname](self, args, kwargs, node)
-        for d in info.node.decorator_list:
+        for d in ([] if trusted else info.node.decorator_list):
             dn = unparse(d.func) if isinstance(d, ast.Call) else unparse(d)
             if dn.split('.')[-1] not in _SAFE_DECORATORS:
                 # a decorator of the repository's own: fine when running the module body showed that it hands the function
@@ -949,7 +993,7 @@ class AbsInt:
                 di = i - (len(params) - len(a.defaults))
                 if di < 0:
                     raise AbsRaise('TypeError', node, implicit=True, msg=f'missing argument {p}')
-                env[p] = self.ev_default(a.defaults[di], info.module)
+                env[p] = self._default_value(info, ('pos', di), a.defaults[di])
         if len(args) > len(params):
             if a.vararg:
                 env[a.vararg.arg] = AList(args[len(params):], 'tuple')
@@ -961,7 +1005,7 @@ class AbsInt:
             if ko.arg in kwargs:
                 env[ko.arg] = kwargs.pop(ko.arg)
             elif kd is not None:
-                env[ko.arg] = self.ev_default(kd, info.module)
+                env[ko.arg] = self._default_value(info, ('kw', ko.arg), kd)
         if a.kwarg:
             env[a.kwarg.arg] = ADict(kwargs)
         elif kwargs:
@@ -1116,6 +1160,15 @@ class AbsInt:
         EVENT_LOG.extend(outs[0][2])
         return outs[0][1]
 
+    def _default_value(self, info, key, expr):
+        """The default of a parameter: the object made when the def statement ran.  While a module body is being executed the
+        defaults of the functions it defines are evaluated then and there (a registry dict named as a default is the dict
+        the module goes on filling)."""
+        dd = getattr(self, '_def_defaults', None)
+        if dd is not None and (info.qname, key) in dd:
+            return dd[(info.qname, key)]
+        return self.ev_default(expr, info.module)
+
     def ev_default(self, expr, module):
         """A parameter default is evaluated once, when the def statement runs (import time): later writes to module globals
         are not seen by it."""
@@ -1179,6 +1232,30 @@ class AbsInt:
             elif isinstance(cur, ADict) and isinstance(st.op, ast.BitOr) and isinstance(v, (ADict, dict)):
                 self.method(cur, 'update', [v], {}, st)          # d |= other updates d in place (aliases see it, stores are logged)
                 self.assign(st.target, cur, env, m)
+            elif isinstance(cur, AList) and getattr(cur, 'cls', None) is not None and isinstance(st.op, (ast.Add, ast.Mult)):
+                # a list subclass of the program.  CPython: its own __iadd__ / __imul__ when it has one; otherwise += extends
+                # the list in place even when __add__ is overridden, while *= goes to an overridden __mul__ / __rmul__ first
+                # (the number slot is tried before the sequence's in-place repeat) and re-binds the name to its result
+                iname, oname, rname = ('__iadd__', '__add__', '__radd__') if isinstance(st.op, ast.Add) else ('__imul__', '__mul__', '__rmul__')
+                o_, ifn = self.p.lookup_method(cur.cls, iname)
+                if ifn is not None:
+                    self.assign(st.target, self.call_function(ifn, [cur, v], {}, st), env, m)
+                elif isinstance(st.op, ast.Add):
+                    cur.items.extend(self.iterate(v, st, keep_vars=True))
+                    self.assign(st.target, cur, env, m)
+                elif self.p.lookup_method(cur.cls, oname)[1] is not None or self.p.lookup_method(cur.cls, rname)[1] is not None:
+                    o_, ofn = self.p.lookup_method(cur.cls, oname)
+                    if ofn is not None:
+                        self.assign(st.target, self.call_function(ofn, [cur, v], {}, st), env, m)
+                    else:
+                        if not (isinstance(v, int) and not isinstance(v, bool)):
+                            raise Unsupported('list subclass repeated a symbolic number of times')
+                        self.assign(st.target, AList(list(cur.items) * v, 'list'), env, m)
+                else:
+                    if not (isinstance(v, int) and not isinstance(v, bool)):
+                        raise Unsupported('list subclass repeated a symbolic number of times')
+                    cur.items[:] = list(cur.items) * v
+                    self.assign(st.target, cur, env, m)
             elif isinstance(cur, AList) and cur.kind in ('list', 'bytearray') and isinstance(st.op, ast.Add) \
                     and not isinstance(st.target, ast.Attribute):
                 cur.items.extend(self.iterate(v, st, keep_vars=True))
@@ -1229,15 +1306,17 @@ class AbsInt:
                         return
                     except _Brk:
                         state['broke'] = True
-                        raise _GenEscape(None)
+                        raise _GenEscape(None, state)
                     except (_Ret, AbsRaise) as ex:
-                        raise _GenEscape(ex)
+                        raise _GenEscape(ex, state)
                 try:
                     if isinstance(gen, ALazy):
                         gen.drive(self, st, body)
                     else:
                         self.run_generator(gen, body)
                 except _GenEscape as ge:
+                    if ge.owner is not state and ge.owner is not None:
+                        raise               # the break / exception of a consumer further out, on its way through this generator
                     if ge.inner is not None:
                         raise ge.inner
                 if not state['broke']:
@@ -1567,6 +1646,21 @@ class AbsInt:
                 self._cm_stack.pop()
             return
         v = self.ev(item.context_expr, env, m)
+        if isinstance(v, AGen) and getattr(v, 'info', None) is not None and any(
+                (isinstance(d, ast.Name) and d.id == 'contextmanager') or (isinstance(d, ast.Attribute) and d.attr == 'contextmanager')
+                for d in v.info.node.decorator_list):
+            # the manager object was made somewhere else (a helper method returning meta_charset(...)): nothing of its body has
+            # run yet, it is entered here
+            def at_yield2(value):
+                if item.optional_vars is not None:
+                    self.assign(item.optional_vars, value, env, m)
+                self.ex_with(st, i + 1, env, m)
+            self._cm_stack.append(at_yield2)
+            try:
+                self.run_generator(v, at_yield2)
+            finally:
+                self._cm_stack.pop()
+            return
         if isinstance(v, tuple) and len(v) == 2 and v[0] in ('nullctx', 'closingctx'):
             if item.optional_vars is not None:
                 self.assign(item.optional_vars, v[1], env, m)
@@ -1716,11 +1810,23 @@ class AbsInt:
             k = next(i for i, x in enumerate(t.elts) if isinstance(x, ast.Starred))
             nb, na = k, len(t.elts) - k - 1
             if any(isinstance(x, SeqVar) for x in items):
+                items = list(items)
                 front = 0
                 while front < len(items) and not isinstance(items[front], SeqVar):
                     front += 1
                 back = 0
                 while back < len(items) and not isinstance(items[len(items) - 1 - back], SeqVar):
+                    back += 1
+                # a target in front of / behind the star that falls into a symbolic run takes its first / last element,
+                # which exists when the run is known to be that long
+                while nb > front and isinstance(items[front], SeqVar) and items[front].minlen >= 1:
+                    sv = items[front]
+                    items[front:front + 1] = [AV.of_sym(sv.sym), _shrunk(sv)]
+                    front += 1
+                while na > back and isinstance(items[len(items) - 1 - back], SeqVar) and items[len(items) - 1 - back].minlen >= 1:
+                    pos = len(items) - 1 - back
+                    sv = items[pos]
+                    items[pos:pos + 1] = [_shrunk(sv), AV.of_sym(sv.sym)]
                     back += 1
                 if nb > front or na > back:
                     raise Unsupported(f'starred assignment reaches into the symbolic part of a sequence at line {t.lineno}')
@@ -1778,6 +1884,17 @@ class AbsInt:
                     if sa is not None:
                         self.call_function(sa, [base, t.attr, v], {}, t)
                         return
+                    ca = self.p.class_attr(base.cls, t.attr)
+                    if ca is not None and isinstance(ca, ast.Call):
+                        try:
+                            dv = self.f.eval(ca, {}, next((k for k in self.p.mro(base.cls) if t.attr in k.attrs), base.cls).module)
+                        except Unfoldable:
+                            dv = self._class_body_value(base.cls, t.attr, ca)
+                        if isinstance(dv, AObj) and dv.cls is not None and self.p.lookup_method(dv.cls, '__set__')[1] is not None:
+                            # a data descriptor in the class body: the assignment calls its __set__
+                            self._name_descriptor(dv, base.cls, t.attr, t)
+                            self.call_function(self.p.lookup_method(dv.cls, '__set__')[1], [dv, base, v], {}, t)
+                            return
                 base.attrs[t.attr] = v
                 base.stores.append((t.attr, v, t))
                 log_event('store', base, t.attr, v)
@@ -1919,6 +2036,8 @@ class AbsInt:
                 return ('excclass', e.id)
             if e.id == '__debug__':
                 return True             # an ordinary run (under -O the assert statements it usually guards are gone as well)
+            if e.id == '__name__' and m is not None:
+                return m.name           # the module as imported (never run as a script by the properties)
             return Opaque(f'global {e.id}')
 
     def _v_Attribute(self, e, env, m):
@@ -1939,14 +2058,24 @@ class AbsInt:
                 return view
             if base.cls is not None:
                 v = self.p.class_attr(base.cls, e.attr)
+                sm = self._static_wrapped(base.cls, e.attr, v) if v is not None else None
+                if sm is not None:
+                    return sm[1] if sm[0] == 'static' else ('bound', ClassRef(base.cls), sm[1].info)
                 if v is not None:
                     try:
-                        cv = self.f.eval(v, {}, base.cls.module)
+                        # (names in a class body are those of the module the class that has the attribute is written in)
+                        cv = self.f.eval(v, {}, next((k for k in self.p.mro(base.cls) if e.attr in k.attrs), base.cls).module)
                     except Unfoldable:
-                        return Opaque(f'class attr {e.attr}')
+                        cv = self._class_body_value(base.cls, e.attr, v)
+                        if cv is None:
+                            return Opaque(f'class attr {e.attr}')
                     if isinstance(cv, FuncRef) and not _is_staticmethod(cv.info.node):
                         # a plain function stored in the class body (`__iter__ = Base.iter_pending`) binds like a method
                         return ('bound', base, cv.info)
+                    if isinstance(cv, AObj) and cv.cls is not None and self.p.lookup_method(cv.cls, '__get__')[1] is not None:
+                        # a descriptor object in the class body: reading the attribute calls its __get__
+                        self._name_descriptor(cv, base.cls, e.attr, e)
+                        return self.call_function(self.p.lookup_method(cv.cls, '__get__')[1], [cv, base, ClassRef(base.cls)], {}, e)
                     return cv
                 o, fn = self.p.lookup_method(base.cls, e.attr)
                 if fn is not None:
@@ -1978,8 +2107,10 @@ class AbsInt:
             nts = nt_spec(self, base.info)
             if nts is not None:
                 return ('ntmake', base) if e.attr == '_make' else tuple(nts[0])
-        if isinstance(base, ClassRef) and e.attr == '__name__':
+        if isinstance(base, ClassRef) and e.attr in ('__name__', '__qualname__'):
             return base.info.name
+        if isinstance(base, ClassRef) and e.attr == '__module__' and self.p.class_attr(base.info, '__module__') is None:
+            return base.info.module.name
         if isinstance(base, AList) and e.attr == '__class__' and getattr(base, 'cls', None) is not None:
             return ClassRef(base.cls)
         if isinstance(base, AList) and getattr(base, 'cls', None) is not None and not e.attr.startswith('__'):
@@ -1990,6 +2121,9 @@ class AbsInt:
                 return ('bound', base, fn)
         if isinstance(base, ClassRef):
             v = self.p.class_attr(base.info, e.attr)
+            sm = self._static_wrapped(base.info, e.attr, v) if v is not None else None
+            if sm is not None:
+                return sm[1] if sm[0] == 'static' else ('bound', base, sm[1].info)
             if v is not None:
                 ek = enum_kind(self, base.info)
                 if ek == 'int' and not e.attr.startswith('_'):
@@ -1999,7 +2133,7 @@ class AbsInt:
                 elif ek == 'other' and not e.attr.startswith('_'):
                     raise Unsupported(f'Enum class {base.info.name} whose members are not ints is not modelled')
                 try:
-                    return self.f.eval(v, {}, base.info.module)
+                    return self.f.eval(v, {}, next((k for k in self.p.mro(base.info) if e.attr in k.attrs), base.info).module)
                 except Unfoldable:
                     return Opaque(e.attr)
             o, fn = self.p.lookup_method(base.info, e.attr)
@@ -2026,6 +2160,46 @@ class AbsInt:
         if _is_concrete(base) and not isinstance(base, (list, dict, set)) and not hasattr(base, e.attr):
             raise AbsRaise('AttributeError', e, implicit=True, msg=e.attr)
         return ('attr', base, e.attr)
+
+    def _static_wrapped(self, cls, name, expr):
+        """A class-body binding `name = staticmethod(f)` / `classmethod(f)` around a function defined elsewhere:
+        ('static' | 'class', the function)."""
+        if isinstance(expr, ast.Call) and isinstance(expr.func, ast.Name) and expr.func.id in ('staticmethod', 'classmethod') \
+                and len(expr.args) == 1 and not expr.keywords:
+            owner = next((k for k in self.p.mro(cls) if name in k.attrs), cls)
+            try:
+                fv = self.ev(expr.args[0], {}, owner.module)
+            except (AbsRaise, Unsupported):
+                return None
+            if isinstance(fv, FuncRef):
+                return ('static' if expr.func.id == 'staticmethod' else 'class', fv)
+        return None
+
+    def _class_body_value(self, cls, name, expr):
+        """The object a class-body assignment `name = Helper(...)` made (one object per class, made when the class was)."""
+        cache = self.__dict__.setdefault('_class_body_cache', {})
+        owner = next((k for k in self.p.mro(cls) if name in k.attrs), cls)
+        key = (owner.qname, name)
+        if key not in cache:
+            if not (isinstance(expr, ast.Call) and isinstance(expr.func, ast.Name)):
+                return None
+            try:
+                fv = self.ev(expr.func, {}, owner.module)
+            except (AbsRaise, Unsupported):
+                return None
+            if not isinstance(fv, ClassRef):
+                return None
+            try:
+                cache[key] = self.ev(expr, {}, owner.module)
+            except AbsRaise:
+                return None
+        return cache[key]
+
+    def _name_descriptor(self, desc, owner, name, node):
+        o, sn = self.p.lookup_method(desc.cls, '__set_name__')
+        if sn is not None and not desc.attrs.get('__named__'):
+            self.call_function(sn, [desc, ClassRef(owner), name], {}, node)
+            desc.attrs['__named__'] = True
 
     def _v_Tuple(self, e, env, m):
         items = self._elts(e.elts, env, m)
@@ -2377,6 +2551,9 @@ class AbsInt:
             return None
         if isinstance(a, type) and isinstance(b, type) and isinstance(op, (ast.Is, ast.IsNot, ast.Eq, ast.NotEq)):
             return (a is b) if isinstance(op, (ast.Is, ast.Eq)) else (a is not b)
+        if isinstance(op, (ast.Is, ast.IsNot, ast.Eq, ast.NotEq)) and isinstance(a, (ClassRef, FuncRef)) and isinstance(b, (ClassRef, FuncRef, type)):
+            same = type(a) is type(b) and a.info is b.info          # a class / function of the program is one object
+            return same if isinstance(op, (ast.Is, ast.Eq)) else not same
         if type(a).__name__ == 'SStr' or type(b).__name__ == 'SStr':
             if isinstance(op, (ast.Eq, ast.NotEq)):
                 other = b if type(a).__name__ == 'SStr' else a
@@ -2541,7 +2718,20 @@ class AbsInt:
                 return True
             if not v.items:
                 return False
-            return self.decide(node, 'emptiness of a symbolic sequence')
+            r = self.decide(node, 'emptiness of a symbolic sequence')
+            if all(isinstance(x, SeqVar) for x in v.items) and v.kind in ('list', 'tuple', 'bytes', 'bytearray'):
+                # what was decided holds from here on (on this path): the sequence is empty, or has at least one item
+                if not r:
+                    v.items[:] = []
+                elif len(v.items) == 1:
+                    sv = v.items[0]
+                    nv = SeqVar(sv.name, sv.sym.umax, max(sv.minlen, 1))
+                    nv.sym = sv.sym
+                    for extra in ('text', 'parent'):
+                        if hasattr(sv, extra):
+                            setattr(nv, extra, getattr(sv, extra))
+                    v.items[0] = nv
+            return r
         if isinstance(v, ADict):
             return bool(v.d)
         if isinstance(v, AObj):
@@ -2955,6 +3145,11 @@ class AbsInt:
             return self.builtin_summaries[e.func.id](self, args, kwargs, e)
         if isinstance(e.func, ast.Name) and e.func.id == 'isinstance' and 'isinstance' not in env and len(args) == 2:
             return self.isinstance_(args, e)
+        if isinstance(e.func, ast.Name) and e.func.id == 'issubclass' and 'issubclass' not in env and len(args) == 2 and not kwargs:
+            r = self._issubclass(args[0], args[1])
+            if r is not None:
+                return r
+            return self.decide(e, 'issubclass')
         if isinstance(e.func, ast.Name) and e.func.id == 'super' and 'super' not in env and not kwargs:
             if not args and env.get('__defcls__') is not None and '__self0__' in env:
                 return ASuper(env['__defcls__'], env['__self0__'])
@@ -3040,6 +3235,40 @@ class AbsInt:
             return self.call_function(f.info, args, dict(kwargs), node)
         if isinstance(f, tuple) and f and f[0] == 'bound':
             return self.call_function(f[2], [f[1]] + list(args), dict(kwargs), node)
+        if isinstance(f, ADispatch):
+            if not args:
+                raise AbsRaise('TypeError', node, implicit=True, msg='singledispatch function requires at least 1 positional argument')
+            impl = f.choose(self, args[0], node)
+            if isinstance(impl, FuncRef):
+                # (its decorator is the registration that has been dealt with: the function itself is called)
+                return self.call_function(impl.info, list(args), dict(kwargs), node, trusted=True)
+            if isinstance(impl, tuple) and len(impl) == 3 and impl[0] == 'closure':
+                return self.call_function(impl[1], list(args), dict(kwargs), node, closure=impl[2], trusted=True)
+            return self.apply(impl, list(args), dict(kwargs), node)
+        if isinstance(f, tuple) and len(f) == 2 and f[0] == 'dispatch-register':
+            disp = f[1]
+            if len(args) == 2:
+                disp.registry.append((args[0], args[1]))
+                return args[1]
+            if len(args) == 1 and isinstance(args[0], (type, ClassRef, ExtRef)):
+                return ('dispatch-register-as', disp, args[0])
+            if len(args) == 1:
+                # @f.register on a function whose first parameter is annotated with the class
+                impl = args[0]
+                info = impl.info if isinstance(impl, FuncRef) else impl[1] if isinstance(impl, tuple) and impl[0] == 'closure' else None
+                ann = None
+                if info is not None:
+                    a0 = (info.node.args.posonlyargs + info.node.args.args)
+                    ann = a0[0].annotation if a0 else None
+                if ann is None:
+                    raise Unsupported('singledispatch.register without a class')
+                cls_v = self.ev(ann, {}, info.module)
+                disp.registry.append((cls_v, impl))
+                return impl
+            raise Unsupported('singledispatch.register call')
+        if isinstance(f, tuple) and len(f) == 3 and f[0] == 'dispatch-register-as':
+            f[1].registry.append((f[2], args[0]))
+            return args[0]
         if isinstance(f, AObj) and f.cls is not None and '__fields__' not in f.attrs:
             o, callm = self.p.lookup_method(f.cls, '__call__')      # an instance of a class of the program that can be called
             if callm is not None:
@@ -3047,6 +3276,28 @@ class AbsInt:
             raise AbsRaise('TypeError', node, implicit=True, msg=f'{f.cls.name} object is not callable')
         if isinstance(f, tuple) and len(f) == 3 and f[0] == 'attr' and isinstance(f[2], str):
             base, name = f[1], f[2]
+            if base is list and args and isinstance(args[0], AList) and args[0].kind not in ('tuple', 'bytes', 'bytearray', 'iterator', 'generator', 'fickle') \
+                    and not kwargs:
+                # list.method(obj, ...) called on the class: what a list subclass uses to reach the behaviour it overrides
+                me, rest = args[0], list(args[1:])
+                if name in ('__add__', '__iadd__') and len(rest) == 1:
+                    if not (isinstance(rest[0], AList) and rest[0].kind not in ('tuple', 'bytes', 'bytearray')) and name == '__add__':
+                        if _is_concrete(rest[0]) and not isinstance(rest[0], list):
+                            raise AbsRaise('TypeError', node, implicit=True, msg='can only concatenate list')
+                    more = self.iterate(rest[0], node, keep_vars=True)
+                    if name == '__add__':
+                        return AList(list(me.items) + list(more), 'list')
+                    me.items.extend(more)
+                    return me
+                if name in ('__mul__', '__rmul__', '__imul__') and len(rest) == 1 and isinstance(rest[0], int) and not isinstance(rest[0], bool):
+                    if name == '__imul__':
+                        me.items[:] = list(me.items) * rest[0]
+                        return me
+                    return AList(list(me.items) * rest[0], 'list')
+                if not name.startswith('__') or name in ('__len__', '__contains__'):
+                    view = AList([], 'list')
+                    view.items = me.items               # the same cells: the plain-list behaviour on this very object
+                    return self.method(view, name, rest, {}, node)
             if base is int and name == 'from_bytes' and args:
                 order = args[1] if len(args) > 1 else kwargs.get('byteorder', 'big')
                 if order in ('big', 'little') and not kwargs.get('signed'):
@@ -3263,6 +3514,8 @@ class AbsInt:
                 return ('suppressctx', tuple(names))
             if key in ('typing.cast', 'cast') and len(args) == 2 and not kwargs:
                 return args[1]
+            if key in ('functools.singledispatch', 'singledispatch') and len(args) == 1 and not kwargs:
+                return ADispatch(args[0])
             if key in ('logging.getLogger', 'getLogger'):
                 return ALogger()
             if key.startswith('logging.') and key.split('.')[-1] in ('debug', 'info', 'warning', 'error', 'exception', 'critical', 'log'):
@@ -3352,6 +3605,10 @@ class AbsInt:
             if isinstance(src, (AGen, ALazy)):
                 return src
             g = self.as_generator(src, node)
+            if g is None and isinstance(src, AList) and src.kind in ('list', 'tuple', 'bytes', 'bytearray') and not src.has_var() \
+                    and getattr(src, 'cls', None) is None:
+                # every position is known: an iterator that can be advanced one item at a time (next() in a loop)
+                return AList(list(src.items), 'iterator')
             return g if g is not None else ALazy('iter', None, src)
         if f is next and args:
             src = args[0]
@@ -3660,6 +3917,31 @@ class AbsInt:
             names_txt = unparse(node.args[1])
         return self._isinstance(v, t, names_txt, node)
 
+    def _issubclass(self, a, b):
+        """issubclass(a, b) for classes of the program, builtin exception classes and plain builtin types; None = unknown."""
+        cands = list(b) if isinstance(b, (tuple, list)) and not (len(b) == 2 and b[0] == 'excclass') else (list(b.items) if isinstance(b, AList) else [b])
+        verdicts = []
+        for c in cands:
+            if isinstance(a, tuple) and len(a) == 2 and a[0] == 'excclass' and isinstance(c, tuple) and len(c) == 2 and c[0] == 'excclass':
+                verdicts.append(exc_is(a[1], c[1], self.extra_exc_parents))
+            elif isinstance(a, ClassRef) and isinstance(c, ClassRef):
+                verdicts.append(self.p.is_subclass(a.info, c.info))
+            elif isinstance(a, type) and isinstance(c, type):
+                verdicts.append(issubclass(a, c))
+            elif isinstance(a, ClassRef) and isinstance(c, tuple) and len(c) == 2 and c[0] == 'excclass':
+                names = [k.name for k in self.p.mro(a.info)] + [unparse(x) for k in self.p.mro(a.info) for x in k.node.bases]
+                verdicts.append(any(exc_is(nm.split('.')[-1], c[1], self.extra_exc_parents) for nm in names))
+            elif isinstance(a, (type, ClassRef)) and isinstance(c, (type, ClassRef)) or \
+                    (isinstance(a, tuple) and len(a) == 2 and a[0] == 'excclass' and isinstance(c, (type, ClassRef))):
+                verdicts.append(c is object)
+            else:
+                verdicts.append(None)
+        if any(v is True for v in verdicts):
+            return True
+        if verdicts and all(v is False for v in verdicts):
+            return False
+        return None
+
     def _isinstance(self, v, t, names_txt, node):
         if isinstance(v, AObj) and v.cls is not None:
             cands = t if isinstance(t, (tuple, list)) else [t]
@@ -3729,6 +4011,9 @@ class AbsInt:
                 return 'Real' in names or 'float' in names
             if isinstance(v, str):
                 return 'str' in names
+        if isinstance(v, complex):
+            return any(k in names_txt.split() or k in names_txt.replace('.', ' ').replace(',', ' ').replace('(', ' ').replace(')', ' ').split()
+                       for k in ('complex', 'Complex', 'Number', 'object'))
         return self.decide(node, 'isinstance')
 
     def length_of(self, v, node=None):
@@ -3769,6 +4054,8 @@ class AbsInt:
                 return len(v)
             except TypeError:
                 raise AbsRaise('TypeError', node, implicit=True)
+        if isinstance(v, (dict, set, frozenset)) or (isinstance(v, (list, tuple)) and not any(isinstance(x, SeqVar) for x in v)):
+            return len(v)           # a table whose entries are classes, functions or objects: its size is known all the same
         if isinstance(v, AObj) and v.cls is not None and '__fields__' not in v.attrs:
             if self.p.lookup_method(v.cls, '__len__')[1] is not None:
                 return self.method_call(v, '__len__', [], {}, node)
@@ -4326,7 +4613,7 @@ def _concretize(v, memo):
             return v
     if isinstance(v, list):
         return [concretize(x, memo) for x in v]
-    if isinstance(v, tuple) and not (v and v[0] in ('closure', 'bound', 'lambda', 'attrgetter', 'itemgetter', 'attr', 'mockmethod', 'signed', 'repattern', 'objectmethod', 'ntmake', 'ntmethod', 'excclass', 'partial', 'methodcaller', 'nullctx', 'closingctx', 'suppressctx')):
+    if isinstance(v, tuple) and not (v and v[0] in ('closure', 'bound', 'lambda', 'attrgetter', 'itemgetter', 'attr', 'mockmethod', 'signed', 'repattern', 'objectmethod', 'ntmake', 'ntmethod', 'excclass', 'partial', 'methodcaller', 'nullctx', 'closingctx', 'suppressctx', 'dispatch-register', 'dispatch-register-as')):
         return tuple(concretize(x, memo) for x in v)
     if isinstance(v, dict):
         return {k: concretize(x, memo) for k, x in v.items()}
@@ -4395,6 +4682,7 @@ def execute_module(folder, m):
     filled by registration decorators, loops or calls)."""
     from .model import FuncInfo as _FI
     ai = AbsInt(folder)
+    ai._def_defaults = {}
     transparent = set()
 
     def decorate(st, val, env, info):
@@ -4427,6 +4715,20 @@ def execute_module(folder, m):
                     val = ('closure', info, env)
                 else:
                     val = FuncRef(info)
+                # the defaults are evaluated now, in the namespace as it is at this point
+                a_ = st.args
+                pos_ = a_.posonlyargs + a_.args
+                for di_, d_ in enumerate(a_.defaults):
+                    try:
+                        ai._def_defaults[(info.qname, ('pos', di_))] = ai.ev(d_, env, m)
+                    except (AbsRaise, Unsupported):
+                        pass
+                for ko_, kd_ in zip(a_.kwonlyargs, a_.kw_defaults):
+                    if kd_ is not None:
+                        try:
+                            ai._def_defaults[(info.qname, ('kw', ko_.arg))] = ai.ev(kd_, env, m)
+                        except (AbsRaise, Unsupported):
+                            pass
                 env[st.name] = decorate(st, val, env, info)
             elif isinstance(st, ast.ClassDef):
                 cinfo = m.classes.get(st.name)
@@ -4440,6 +4742,13 @@ def execute_module(folder, m):
                         got = decorate(b, FuncRef(finfo), env, finfo)
                         if not (isinstance(got, FuncRef) and got.info == finfo):
                             raise Unsupported(f'decorator replaces method {st.name}.{b.name}')
+                # a base class that registers its subclasses: __init_subclass__ runs when the class statement has been executed
+                for k in folder.p.mro(cinfo)[1:]:
+                    hook = k.methods.get('__init_subclass__')
+                    if hook is not None:
+                        kw = {kw_.arg: ai.ev(kw_.value, env, m) for kw_ in st.keywords if kw_.arg and kw_.arg != 'metaclass'}
+                        ai.call_function(hook, [ClassRef(cinfo)], kw, st)
+                        break
                 env[st.name] = decorate(st, ClassRef(cinfo), env, cinfo)
             else:
                 ai.ex(st, env, m)
